@@ -173,6 +173,22 @@ def build():
     ]
     for i, (fs, st) in enumerate(h):
         rec(f"H1v{i}", fs, st)
+    # added fields declared anywhere in the struct (the chunk is determined by the name, not the position)
+    rec("EvMid", [F("n", i32), F("a", u8), F("b", ("opt", s)), F("c", u64)], [("add", "n", "z5"), ("opt", "b")])
+    rec("EvMid2", [F("a", u8), F("n1", s), F("b", ("opt", u8)), F("n2", ("seq", "vec", 0, u8)), F("c", i32), F("d", ("opt", s))],
+        [("add", "n1", "b78"), ("opt", "b"), ("add", "n2", "b-"), ("opt", "d")])
+    enum("EEvMid", [var("A", [F("field0", i32), F("field1", u8), F("field2", ("opt", s)), F("field3", u8)],
+                        [("add", "field0", "z1"), ("opt", "field2")], shape="tuple"),
+                    var("B", shape="unit")])
+    h2 = [
+        ([F("a", u8), F("b", s), F("c", i32)], []),
+        ([F("n", u64), F("a", u8), F("b", s), F("c", i32)], [("add", "n", "n7")]),
+        ([F("n", u64), F("a", u8), F("b", ("opt", s)), F("c", i32)], [("add", "n", "n7"), ("opt", "b")]),
+        ([F("n", u64), F("a", u8), F("m", b), F("b", ("opt", s)), F("c", i32)], [("add", "n", "n7"), ("opt", "b"), ("add", "m", "n1")]),
+        ([F("n", u64), F("a", u8), F("m", b), F("b", ("opt", s))], [("add", "n", "n7"), ("opt", "b"), ("add", "m", "n1"), ("rem", "c")]),
+    ]
+    for i, (fs, st) in enumerate(h2):
+        rec(f"H2v{i}", fs, st)
     # seeded random declarations over the small vocabulary
     rng = random.Random(20260930)
     vocab = [u8, i32, u64, s, b, ch, ("opt", u8), ("opt", s), ("seq", "vec", 0, u8), ("seq", "vec", 0, s),
@@ -204,6 +220,8 @@ def build():
                 if t[0] == "named":
                     return "(0 z1 z2)"
             steps.append(("add", last["name"], dflt(last["ty"])))
+            if rng.random() < 0.5:
+                fs.insert(rng.randrange(len(fs)), fs.pop())      # declare the added field somewhere else
             if rng.random() < 0.4:
                 steps.append(("rem", "zz"))
         elif c < 0.7:
